@@ -12,6 +12,7 @@ package sched
 import (
 	"fmt"
 	"runtime"
+	"strings"
 	"sync"
 	"time"
 )
@@ -26,18 +27,20 @@ const (
 
 // Task is one cooperatively scheduled goroutine.
 type Task struct {
-	ID      int
-	Name    string
-	s       *Sched
-	st      state
-	label   string
-	enabled func() bool
-	resume  chan struct{}
-	Panic   interface{} // recovered panic value that escaped the task function
-	Stack   string
-	Visits  map[string]int // label -> number of times parked there
-	Started bool           // has run at least one slice under the scheduler (or freely in set-up)
-	Data    interface{}    // harness data (per-task call context etc.)
+	ID       int
+	Name     string
+	s        *Sched
+	st       state
+	label    string
+	enabled  func() bool
+	resume   chan struct{}
+	Panic    interface{} // recovered panic value that escaped the task function
+	Stack    string
+	Visits   map[string]int // label -> number of times parked there
+	Started  bool           // has run at least one slice under the scheduler (or freely in set-up)
+	Data     interface{}    // harness data (per-task call context etc.)
+	gid      int64
+	detached bool // forced past a false predicate and blocked inside the code under test
 }
 
 // Gate sets the enabledness predicate of a task that is parked (typically at
@@ -56,23 +59,24 @@ func (t *Task) Done() bool { return t.st == stDone }
 
 // Sched is the scheduler.
 type Sched struct {
-	mu       sync.Mutex
-	tasks    []*Task
-	cur      *Task
-	timer    *time.Timer
-	streak   int
-	Fair     int // maximum consecutive decisions for one task while others are enabled
-	Forced   int // decisions taken by the fairness rule
-	notify   chan struct{}
-	Schedule []uint8
-	pos      int
-	last     *Task
-	running  bool
-	Steps    int // number of scheduling decisions taken (logical time)
-	Preempts int // decisions that switched away from an enabled running task
-	MaxSteps int
-	Watchdog time.Duration
-	seq      int
+	mu        sync.Mutex
+	tasks     []*Task
+	cur       *Task
+	timer     *time.Timer
+	streak    int
+	nDetached int
+	Fair      int // maximum consecutive decisions for one task while others are enabled
+	Forced    int // decisions taken by the fairness rule
+	notify    chan struct{}
+	Schedule  []uint8
+	pos       int
+	last      *Task
+	running   bool
+	Steps     int // number of scheduling decisions taken (logical time)
+	Preempts  int // decisions that switched away from an enabled running task
+	MaxSteps  int
+	Watchdog  time.Duration
+	seq       int
 	// Trace, when non-nil, receives one line per decision.
 	Trace func(step int, t *Task, label string)
 	// OnStep is called (scheduler goroutine, no task running) before every decision.
@@ -99,12 +103,38 @@ func (s *Sched) Seq() int {
 // goroutine ids cost more than the whole rest of a case).
 func (s *Sched) Current() *Task {
 	s.mu.Lock()
+	if s.nDetached > 0 {
+		// slow path: a detached task runs on its own; tell the goroutines apart
+		s.mu.Unlock()
+		g := goid()
+		s.mu.Lock()
+		for _, t := range s.tasks {
+			if t.detached && t.gid == g {
+				s.mu.Unlock()
+				return t
+			}
+		}
+	}
 	t := s.cur
 	if t != nil && t.st != stRunning {
 		t = nil
 	}
 	s.mu.Unlock()
 	return t
+}
+
+func goid() int64 {
+	var buf [40]byte
+	n := runtime.Stack(buf[:], false)
+	b := buf[10:n] // after "goroutine "
+	var id int64
+	for _, c := range b {
+		if c < '0' || c > '9' {
+			break
+		}
+		id = id*10 + int64(c-'0')
+	}
+	return id
 }
 
 // Go creates a task. If free is true the task starts running at once, outside
@@ -124,6 +154,7 @@ func (s *Sched) Go(name string, free bool, fn func()) *Task {
 	}
 	s.mu.Unlock()
 	go func() {
+		t.gid = goid()
 		defer func() {
 			if p := recover(); p != nil {
 				t.Panic = p
@@ -135,6 +166,10 @@ func (s *Sched) Go(name string, free bool, fn func()) *Task {
 			t.label = ""
 			if s.cur == t {
 				s.cur = nil
+			}
+			if t.detached {
+				t.detached = false
+				s.nDetached--
 			}
 			s.mu.Unlock()
 			s.wake()
@@ -170,6 +205,10 @@ func (s *Sched) Yield(label string, enabled func() bool) {
 	if s.cur == t {
 		s.cur = nil
 	}
+	if t.detached {
+		t.detached = false
+		s.nDetached--
+	}
 	s.mu.Unlock()
 	s.wake()
 	<-t.resume
@@ -204,7 +243,7 @@ func (s *Sched) settle(who *Task, from string) error {
 		s.mu.Lock()
 		busy := false
 		for _, t := range s.tasks {
-			if t.st == stRunning {
+			if t.st == stRunning && !t.detached {
 				busy = true
 				break
 			}
@@ -388,6 +427,94 @@ func (s *Sched) RunTo(t *Task, labels ...string) (reached bool, err error) {
 		}
 	}
 	return false, &ErrSteps{s.Steps}
+}
+
+// ForceResume resumes a parked task although its predicate is false and waits
+// up to d for it to park again or end. If it does neither, the task is blocked
+// inside the code under test: it is marked detached (it will continue on its
+// own once unblocked) and false is returned together with its goroutine state.
+func (s *Sched) ForceResume(t *Task, d time.Duration) (cameBack bool, state string) {
+	if err := s.Settle(); err != nil || t.st != stParked {
+		return true, ""
+	}
+	s.mu.Lock()
+	t.st = stRunning
+	t.label = ""
+	t.enabled = nil
+	s.cur = t
+	s.Steps++
+	s.mu.Unlock()
+	s.last = t
+	t.resume <- struct{}{}
+	deadline := time.Now().Add(d)
+	for {
+		s.mu.Lock()
+		st := t.st
+		s.mu.Unlock()
+		if st != stRunning {
+			return true, ""
+		}
+		if time.Now().After(deadline) {
+			break
+		}
+		select {
+		case <-s.notify:
+		case <-time.After(2 * time.Millisecond):
+		}
+	}
+	state = goroutineState(t.gid)
+	s.mu.Lock()
+	if t.st == stRunning {
+		t.detached = true
+		s.nDetached++
+		if s.cur == t {
+			s.cur = nil
+		}
+		s.mu.Unlock()
+		return false, state
+	}
+	s.mu.Unlock()
+	return true, ""
+}
+
+// goroutineState returns the header and first frames of the goroutine with the given id.
+func goroutineState(gid int64) string {
+	buf := make([]byte, 1<<20)
+	buf = buf[:runtime.Stack(buf, true)]
+	marker := fmt.Sprintf("goroutine %d [", gid)
+	i := strings.Index(string(buf), marker)
+	if i < 0 {
+		return ""
+	}
+	rest := string(buf[i:])
+	if j := strings.Index(rest, "\n\n"); j >= 0 {
+		rest = rest[:j]
+	}
+	if len(rest) > 1500 {
+		rest = rest[:1500]
+	}
+	return rest
+}
+
+// WaitDetached waits until no detached task is left running (each has parked
+// again or ended); it reports false on timeout (still blocked).
+func (s *Sched) WaitDetached(d time.Duration) bool {
+	deadline := time.Now().Add(d)
+	for {
+		s.mu.Lock()
+		n := s.nDetached
+		s.mu.Unlock()
+		if n == 0 {
+			return true
+		}
+		if time.Now().After(deadline) {
+			return false
+		}
+		select {
+		case <-s.notify:
+		case <-time.After(time.Millisecond):
+		}
+	}
 }
 
 // StepTask resumes task t once if it is parked and enabled.
